@@ -85,7 +85,7 @@ ASSUMPTIONS = [
     "dft_subsample='auto' and the concrete window classes are covered by the bounded real-JAX runs only",
     "plane / box extents of the phasor Poynting detectors enumerated (small), values symbolic",
 ]
-MIN_OBLIGATIONS = {"quick": 2500, "thorough": 12000}
+MIN_OBLIGATIONS = {"quick": 2500, "thorough": 25000}
 AXIOMS = {"apod": [lambda args, term, apps: [term >= 0]]}
 LEVEL_TEXT = (
     "Deductive proof of the per-step DFT summand identity of the real PhasorDetector.update for all steps, windows, frequencies, strides, fields and "
